@@ -20,7 +20,7 @@ namespace RtenVerif.Driver.C32
 open RtenVerif.Driver RtenVerif.Generator
 
 /-- The recording rule of the code under test (current tree). -/
-def currentRule : Rule := .legacy
+def currentRule : Rule := .tracked
 
 def parseOp (w : String) : Option Op :=
   if w == "C" then some .clear
